@@ -361,13 +361,13 @@ func ruleC11(c *Ctx) {
 	})
 	if lk == nil {
 		c.undecided("SHAPE", "lookup(ToUpper(seq)[i])", av.Pos(), "no comma-ok table lookup keyed by the runes of strings.ToUpper(seq) found")
-		if stRaw, whyRaw := judgeCase(c.W, av, 0); stRaw == broken {
+		if stRaw, whyRaw := judgeCaseR(c.W, av, 0, true); stRaw == broken {
 			c.bad("SHAPE", "DEPEND: raw input only under ToUpper", av.Pos(), whyRaw+": lower-case codes are treated differently from upper-case ones")
 		}
 		return
 	}
 	c.ok("SHAPE", "lookup(ToUpper(seq)[i])", lk.Pos(), "each rune of the upper-cased input is looked up (comma-ok) in the code table")
-	stRaw, whyRaw := judgeCase(c.W, av, 0)
+	stRaw, whyRaw := judgeCaseR(c.W, av, 0, true)
 	c.judge(stRaw, "SHAPE", "DEPEND: raw input only under ToUpper", av.Pos(), "letter case cannot influence the expansion", whyRaw+": lower-case codes are treated differently from upper-case ones")
 	var tabI map[rune][]rune
 	var problems []string
